@@ -1143,7 +1143,8 @@ class VerilogTernaryConditionalOperator(ast.AST):
         self._fields = tuple(['condition', 'positive', 'negative'])
 
     def toVerilog(self):
-        return '({}) ? {} : {}'.format(Python2VerilogTranspiler.toVerilog(self.condition),
+        # parenthesised as a whole: ?: binds weaker than every other operator
+        return '(({}) ? ({}) : ({}))'.format(Python2VerilogTranspiler.toVerilog(self.condition),
             Python2VerilogTranspiler.toVerilog(self.positive),
             Python2VerilogTranspiler.toVerilog(self.negative))
 
